@@ -1,6 +1,6 @@
 SPECIFICATION Spec
 CONSTANTS MinN = 6  MaxN = 6  NameIdx = {1, 6, 7}  MaxKids = 3  MaxEdges = 4  MaxIso = 0  MaxExtraRoots = 0
-          RootPerm = FALSE  Topo = TRUE  Gen = TRUE
+          RootPerm = FALSE  Topo = TRUE  SkipTaken = TRUE  Gen = TRUE
 VIEW view
 INVARIANT TypeOK
 INVARIANT Acyclic
